@@ -40,6 +40,10 @@ def replay(body) -> int:
     import importlib
 
     kind = body.get("kind", "")
+    if kind == "pdom-call":
+        from . import predicates
+
+        return predicates.replay_pdom(body)
     mod = {
         "pred-call": "predicates",
         "c08": "c08",
